@@ -255,8 +255,8 @@ pub fn spec(id: &str) -> Option<PropSpec> {
             needs_entropy: true,
             needs_clock: true,
             ..base(
-                vec![cs(&ENTROPY, "history", 288, 288, false), cs(&ENTROPY, "processes", 24, 48, false)],
-                "cases = (randomized entry point, group, mode in {one call sequence, 8 caller threads, 4 process incarnations, two device seeds, two child processes seam on/off}); \
+                vec![cs(&ENTROPY, "history", 360, 360, false), cs(&ENTROPY, "processes", 24, 48, false)],
+                "cases = (randomized entry point, group, mode in {one call sequence (8N calls), 8 caller threads, 4 process incarnations, two device seeds, all entry points interleaved and compared with each other, two child processes seam on/off}); every run is also compared with the earlier runs on its worker thread; \
                  N identical-argument calls per case (quick 256, thorough 4096) at a frozen simulated clock; every exposed ephemeral (u, masks, c1, recomputed r1, commitment, secret, key, challenge, share values) must be pairwise distinct; all cases are non-trivial",
                 vec!["cur-blst"],
             )
